@@ -84,9 +84,19 @@ def gen(kind):
     if kind == 'Pat':
         sub = {'KIND':'Pat','VT':'string','FIELD':'Pattern','MAPS':'patterns','ALL':'allPatterns','ASPECT':'patterns'}
         nonempty = lambda x: f'{x} != ""'
-    else:
+    elif kind == 'Enum':
         sub = {'KIND':'Enum','VT':'[]any','FIELD':'Enum','MAPS':'enums','ALL':'allEnums','ASPECT':'enums'}
         nonempty = lambda x: f'len({x}) > 0'
+    else:
+        sub = {'KIND':'Ref','VT':'spec.Ref','FIELD':'Ref','MAPS':'references','ALL':'allRefs','ASPECT':'refs'}
+        nonempty = lambda x: f'{x}.String() != ""'
+        # only the items chain and operation parameters follow the same shape for $refs
+        keep = []
+        blocks = t.split('\n\n')
+        for b in blocks:
+            if 'fun itKIND' in b or 'analyzeItems(' in b or 'analyzeParameter(' in b:
+                keep.append(b)
+        t = '\n\n'.join(keep) + '\n'
     # the 9 further loops of analyzeSchema need the same three invariants
     inv = [l for l in t.splitlines() if l.startswith('//@   loop 1: invariant') and 'schemas' in l and 'analyzeSchema' not in l][:0]
     lines = t.split('LOOPS_SCHEMA')[0].splitlines()
@@ -105,3 +115,5 @@ def gen(kind):
 sys.stdout.write("\n// ---------------------------------------------------------------- analyzer.go: pattern and enum indexes (C13)\n// generated by /verif/tools/gen_pe_contracts.py (patterns written once, enums derived)\n")
 sys.stdout.write(gen('Pat'))
 sys.stdout.write(gen('Enum'))
+if len(sys.argv) > 1 and sys.argv[1] == 'refs':
+    sys.stdout.write(gen('Ref'))
